@@ -199,6 +199,9 @@ class Recorder:
     bad = Context.bad
     unk = Context.unk
 
+    def floor(self, name: str, found: int, floor: int) -> None:     # floors belong to the check that owns the rule
+        pass
+
 
 _PAR_FN = None
 
